@@ -51,7 +51,11 @@ def run_case(case):
 	nq, nr = case['nq'], case['nr']
 	queries = [sig() for _ in range(nq)]
 	refs = [sig() for _ in range(nr)]
-	if nr > 2 and rnd.random() < .5:
+	if case.get('distinct'):
+		# nested signatures: every reference has a different distance to every other one and to the query
+		refs = [np.array(sorted(range(0, 3 * (j + 1) + j * j)), dtype=dt) for j in range(nr)]
+		queries = [np.array(sorted(range(0, 2 + 5 * q)), dtype=dt) for q in range(nq)]
+	elif nr > 2 and rnd.random() < .5:
 		refs[-1] = refs[0].copy()
 	if nq and nr and rnd.random() < .5:
 		queries[0] = refs[0].copy()
@@ -146,9 +150,32 @@ def cases(tier, seed):
 		       'threads': rnd.choice([None, 1, 5, 16]), 'seed': rnd.randrange(10 ** 6)}
 
 
+def selection_cases(tier):
+	"""Small-scope exhaustive: EVERY index selection (any order, repeats allowed) of length <= L over 5 distinguishable references, x every chunk size."""
+	nr = 5
+	L = 4 if tier == 'quick' else 5
+	conts = ['array', 'list', 'hdf5', 'plain']
+	t = 0
+	for m in range(0, L + 1):
+		for idx in itertools.product(range(nr), repeat=m):
+			t += 1
+			cont = conts[t % 4]
+			for cs in ([None, 1, 2, 3, 4] if m > 1 else [None, 1]):
+				if cs is not None and cs >= m and m > 1 and cs != m:
+					continue
+				yield {'kind': 'matrix', 'nq': 2 if t % 7 == 0 else 1, 'nr': nr, 'refs': cont, 'queries': 'plain', 'ref_indices': list(idx), 'chunksize': cs, 'distinct': True, 'seed': 1}
+			yield {'kind': 'pairwise', 'nq': 0, 'nr': nr, 'refs': cont, 'indices': list(idx), 'flat': t % 2 == 0, 'distinct': True, 'seed': 1}
+	# index arrays given as ndarray / negative-free large selections with long ascending-looking runs
+	for idx in ([0, 2, 1, 3, 7, 6], [1, 3, 3, 4], [2, 4, 3, 5], [5, 4, 3, 2, 1, 0], [0, 1, 2, 3, 4, 5, 7, 6], [3, 3, 3, 3], [7, 0, 1, 2, 3, 4, 5, 6]):
+		for cs in (None, 1, 2, 3, 4, 5, 8):
+			for cont in conts:
+				yield {'kind': 'matrix', 'nq': 1, 'nr': 8, 'refs': cont, 'queries': 'plain', 'ref_indices': idx, 'chunksize': cs, 'distinct': True, 'seed': 2}
+		yield {'kind': 'pairwise', 'nq': 0, 'nr': 8, 'refs': 'array', 'indices': idx, 'flat': True, 'distinct': True, 'seed': 2}
+
+
 def bounded(tier, seed):
 	n, failures, sample = 0, [], []
-	for c in cases(tier, seed):
+	for c in itertools.chain(cases(tier, seed), selection_cases(tier)):
 		reps = 3 if (c.get('threads') and c['kind'] != 'chunks') else 1     # repeated runs under the dynamic schedule
 		for _ in range(reps):
 			r = run_case(c)
@@ -161,5 +188,5 @@ def bounded(tier, seed):
 		if len(failures) >= 4:
 			break
 	return {'tool': 'real jaccarddist_array / _matrix / _pairwise / chunk_slices against a double loop over the two-signature distance (float32 bits compared)',
-	        'bound': 'collections of <= 12 signatures x 4 containers x chunk sizes x index selections with repeats x 1..16 OpenMP threads x 3 repetitions', 'cases': n,
+	        'bound': 'collections of <= 12 signatures x 4 containers x chunk sizes x index selections with repeats x 1..16 OpenMP threads x 3 repetitions; plus EVERY index selection of length <= 4 (thorough: 5) over 5 distinguishable references x every chunk size for the matrix and the pairwise forms', 'cases': n,
 	        'failures': failures, 'samples': sample}
